@@ -318,6 +318,9 @@ def host_and_history_cases(ctx):
         "one reverse statement, several operands": ("def flip(d, x: float, y: float):\n    schedule.reverse(d)(x, y)\n\n@move{DEC}\ndef main(x: float, y: float):\n"
                                                     "    f = schedule.device_fn(k, [0, 1], [0])\n    r = schedule.reverse(f)\n    flip(f, x, y)\n    flip(r, x, y)\n    flip(f, x, y)\n"
                                                     "    flip(BWD, x, y)\n", "rfrf"),
+        "forward and reversed calls with the same operands in nested branches": (
+            "def main(x: float, y: float):\n    f = schedule.device_fn(k, [0, 1], [0])\n    r = schedule.reverse(f)\n    f(x, y)\n    if x > 0.0:\n        r(x, y)\n"
+            "        if y > 0.0:\n            schedule.reverse(r)(x, y)\n    else:\n        f(x, y)\n    r(x, y)\n    if y > 0.0:\n        f(x, y)\n        r(y=y, x=x)\n", "frfrfr"),
         "a loop that keeps reversing": ("def main(x: float, y: float):\n    g = schedule.device_fn(k, [0, 1], [0])\n    i = 0\n    for i in range(5):\n        g(x, y)\n        g = schedule.reverse(g)\n", "frfrf"),
     }
     n = 0
